@@ -2,6 +2,8 @@ import KcpVerif.Model.Kcp
 import KcpVerif.Lemmas.KcpLiveFlush
 import KcpVerif.Lemmas.KcpLiveOps
 import KcpVerif.Lemmas.SysCleanRun
+import KcpVerif.Lemmas.SysWinRun
+import KcpVerif.Model.Sys2
 /-!
 C18 — no retransmission on a clean path; RTO stays within its bounds.
 -/
@@ -350,5 +352,103 @@ example : SysC.RunOk c18A.snd_nxt (Sys.init c18A c18A 3 1000 (ndB := true)) c18B
 set_option maxRecDepth 100000 in
 example : (Sys.run (Sys.init c18A c18A 3 1000 (ndB := true)) c18Big).got.length = 3003 ∧
     (Sys.run (Sys.init c18A c18A 3 1000 (ndB := true)) c18Big).A.waitSnd = 0 := by decide
+
+/-! ### the room hypothesis derived from the window precondition
+
+`SysC.Win` (Lemmas/SysWinStep.lean): every `(una, wnd)` pair on its way to A, and A's current
+`(snd_una, min(snd_wnd, rmt_wnd))`, satisfy `una + wnd + |rcv_queue| ≤ rcv_nxt + rcv_wnd` at B; the
+send buffer of A is contiguous; the `una`s on the link are non-decreasing.  Preserved by every event
+(`SysC.cleanwin_step`): phase 4 never admits beyond `snd_una + min(snd_wnd, rmt_wnd)`
+(`SysC.flush_nxt_bound`, the admission rule of C04), `wnd_unused` never advertises more than the room
+left (`SysC.wndUnused_le`), an in-order PUSH moves `rcv_nxt` and `|rcv_queue|` together, `Recv` only
+shortens the queue.  `SysC.WinInit` is the window precondition of the property: B's receive window is
+at least `min(snd_wnd, rmt_wnd)` of A, where `rmt_wnd` is still the 32 segments a sender assumes before
+it is told. -/
+
+open KcpVerif.Sys KcpVerif.SysC in
+/-- **No retransmission on a clean path, from the window precondition.**  As
+`C18_clean_path_partial`, but the room hypothesis `RoomOk` is no longer assumed: it is derived from
+`WinInit` (receive window of B ≥ min(send window of A, the window A assumes), B's queue empty and
+nothing outstanding at the start) and the reader keeping up (built into `Sys.step`: a `tick` is
+refused while something is readable), and it is part of the conclusion.  The one run hypothesis left
+is `NoWrap` (fewer than 2^31 segments queued over the whole run). -/
+theorem C18_clean_path_window_partial (A B : Kcp) (D t0 : Nat) (ndA ndB : Bool) (hinit : CleanInit A B D)
+    (hwin : WinInit A B) (evs : List Ev) (hrun : RunNoWrap A.snd_nxt (Sys.init A B D t0 ndA ndB) evs) :
+    (Sys.run (Sys.init A B D t0 ndA ndB) evs).panic = false ∧
+    (∀ x ∈ (Sys.run (Sys.init A B D t0 ndA ndB) evs).A.snd_buf, x.xmit = 1) ∧
+    (flX (Sys.run (Sys.init A B D t0 ndA ndB) evs).A true (clk (Sys.run (Sys.init A B D t0 ndA ndB) evs).now)).lost = 0 ∧
+    (flX (Sys.run (Sys.init A B D t0 ndA ndB) evs).A true (clk (Sys.run (Sys.init A B D t0 ndA ndB) evs).now)).change = 0 ∧
+    RoomOk (Sys.run (Sys.init A B D t0 ndA ndB) evs) := by
+  obtain ⟨gab, gba, hc, hw, hnw⟩ := cleanwin_run (p := parOf A B) evs _ [] []
+    (clean_init A B D t0 ndA ndB hinit) (win_init A B D t0 ndA ndB hinit hwin) hrun
+  obtain ⟨_, _, hl, hch⟩ := clean_flushA hc hnw 0
+  exact ⟨hc.np, fun x hx => (hc.aseg x hx).2.1, hl, hch, hw.room hc⟩
+
+/-- non-vacuity: the start conditions and the remaining run hypothesis hold on the runs above; default
+windows (`snd_wnd = rmt_wnd = rcv_wnd = 32`) -/
+example : SysC.WinInit c18A c18A := by decide
+example : SysC.RunNoWrap c18A.snd_nxt (Sys.init c18A c18A 3 1000) c18Evs := by decide
+set_option maxRecDepth 100000 in
+example : SysC.RunNoWrap c18A.snd_nxt (Sys.init c18A c18A 3 1000 (ndB := true)) c18Big := by decide
+/- the window precondition is needed for `RoomOk`: with a receive window of 1 at B and the default 32
+assumed by A, A sends two segments at once and the second finds no room -/
+example : ¬ SysC.WinInit c18A (Kcp.wndSize c18A 32 1) := by decide
+set_option maxRecDepth 100000 in
+example : ¬ SysC.RoomOk (Sys.run (Sys.init c18A (Kcp.wndSize c18A 32 1) 3 1000)
+    [.send (List.replicate 2000 5), .flushA]) := by decide
+
+/-! ### data in both directions (stated, not proved)
+
+`Model/Sys2.lean` adds a writer at B and a reader at A to the system.  The one-directional theorem does
+NOT give the bidirectional one by symmetry, for three concrete reasons (each is a place where the
+proof of `SysC.clean_step` uses "B never sends"):
+
+1. **frame classes per link.**  `SysC.Clean.fab` / `fba` say: A→B carries only PUSH/WASK/WINS
+   (`DataLike`, because `A.acklist = []`), B→A only ACK/WASK/WINS (`AckLike`).  With data both ways a
+   datagram mixes them; the invariant needs one class `Mixed` per link: every PUSH is the next
+   in-order one (`ord`, per direction), every ACK has `sn < una`, EVERY frame (PUSH included — `una`
+   and `wnd` are piggybacked) carries a credit pair for `SysC.Win` and may serve as the covering frame
+   of `Loc`'s third disjunct.
+2. **one `Input` does both jobs.**  `clean_inA` assumes the datagram changes only the send side
+   (`inFrs_ackLike`), `clean_inB` only the receive side with `snd_buf = []` (`inFrs_dataLike`,
+   `inPre_empty`).  The merged step lemma must run `parse_una` on a non-empty contiguous buffer AND
+   accept in-order PUSHes in the same fold, and the closing decision becomes three-way (FULL flush
+   when `snd_una` advanced — it also empties the ack list early, which only shortens the latency —,
+   ACK-only flush, nothing).  `flush_clean` must allow a non-empty ack list (`hack` is used only to
+   say `ackFrsOf = []`).
+3. **both readers, both timers.**  `quiet` must also wait for A's reader (`Sys2.step`), `Win` is needed
+   in both directions, and the precondition becomes `2 D + interval_B < rx_minrto_A` and
+   `2 D + interval_A < rx_minrto_B`.
+
+No new protocol phenomenon appears (an ACK still arrives with `una > sn`, so `parse_ack` and
+`parse_fastack` stay no-ops; the RTT sample is clamped as before); what is missing is the product
+invariant `Clean p s … ∧ Clean p' (swap s) …` over `Mixed` links and the merged `Input` lemma. -/
+
+open KcpVerif.Sys KcpVerif.SysC in
+def C18_clean_path_bidir_full : Prop :=
+  ∀ (A B : Kcp) (D t0 : Nat) (ndA ndB : Bool),
+    CleanInit A B D → WinInit A B → CleanInit B A D → WinInit B A →
+    ∀ evs : List Sys2.Ev,
+      (Sys2.run { s := Sys.init A B D t0 ndA ndB } evs).s.panic = false ∧
+      (∀ x ∈ (Sys2.run { s := Sys.init A B D t0 ndA ndB } evs).s.A.snd_buf, x.xmit ≤ 1) ∧
+      (∀ x ∈ (Sys2.run { s := Sys.init A B D t0 ndA ndB } evs).s.B.snd_buf, x.xmit ≤ 1)
+
+def c18Bidir : List Sys2.Ev :=
+  [.base (.send [1, 2, 3]), .sendB [9, 8], .base .flushA, .base .flushB, .base .tick, .base .tick, .base .tick,
+   .base .dlvB, .base .dlvA, .base .read, .readA] ++ List.replicate 7 (.base .tick) ++
+  [.base .flushA, .base .flushB] ++ List.replicate 3 (.base .tick) ++ [.base .dlvB, .base .dlvA]
+
+/- evidence (not proof): a run with data both ways, acknowledgements piggybacked on the scheduled
+flushes; both segments are transmitted once, delivered and acknowledged -/
+example : SysC.CleanInit c18A c18A 3 ∧ SysC.WinInit c18A c18A := by decide
+set_option maxRecDepth 100000 in
+example : ((Sys2.run { s := Sys.init c18A c18A 3 1000 } (c18Bidir.take 20)).s.A.snd_buf.map (fun x => x.xmit)) = [1] ∧
+    ((Sys2.run { s := Sys.init c18A c18A 3 1000 } (c18Bidir.take 20)).s.B.snd_buf.map (fun x => x.xmit)) = [1] := by
+  decide
+set_option maxRecDepth 100000 in
+example : (Sys2.run { s := Sys.init c18A c18A 3 1000 } c18Bidir).s.got = [1, 2, 3] ∧
+    (Sys2.run { s := Sys.init c18A c18A 3 1000 } c18Bidir).gotA = [9, 8] ∧
+    (Sys2.run { s := Sys.init c18A c18A 3 1000 } c18Bidir).s.A.snd_buf = [] ∧
+    (Sys2.run { s := Sys.init c18A c18A 3 1000 } c18Bidir).s.B.snd_buf = [] := by decide
 
 end KcpVerif.Props
